@@ -274,7 +274,7 @@ func endlessScript(rt *rapid.T) (string, string) {
 
 func TestC09(t *testing.T) {
 	defer silenceAs("deadlines")()
-	col := evid.New("C09", "deadlines", "non-terminating scripts from a grammar of shapes (while(true), for(1), constant-folded and field-dependent conditions, nested loops, loops inside user functions at call depth 1-4, functions spinning inside loops, recursion ending in a loop, foreach over ranges of 1-10000 inside an endless while, busy bodies) x context kinds (already cancelled, deadline in the past, deadlines of 1-300 ms, cancel() from another goroutine after 0-100 ms) x Run/Execute x optimizer on/off, plus a control group of terminating programs under a 30 s deadline; oracle: the call returns an error within deadline + 3 s (normal latency is microseconds), an already-expired context prevents the first statement from running, the control group returns what it returns without a context; non-trivial = the script is endless and the deadline lies in the future; distinct by (script, context kind, millis)")
+	col := evid.New("C09", "deadlines", "non-terminating scripts from a grammar of shapes (while(true), for(1), constant-folded and field-dependent conditions, nested loops, loops inside user functions at call depth 1-4, functions spinning inside loops, recursion ending in a loop, foreach over ranges of 1-10000 inside an endless while, busy bodies, endless loops around single cheap operations such as 1 ** 4*10^18) x context kinds (already cancelled, deadline in the past, deadlines of 1-300 ms, cancel() from another goroutine after 0-100 ms) x Run/Execute x optimizer on/off, plus a control group of terminating programs under a 30 s deadline; oracle: the call returns an error within deadline + 3 s (normal latency is microseconds), an already-expired context prevents the first statement from running, the control group returns what it returns without a context; non-trivial = the script is endless and the deadline lies in the future; distinct by (script, context kind, millis)")
 	replayKnown(t, col, "C09")
 	rapidCheck(t, col, func(rt *rapid.T) {
 		c := &DeadlineCase{Prop: "C09", Kind: "deadline", UseRun: rapid.Bool().Draw(rt, "userun"), NoOpt: rapid.Bool().Draw(rt, "noopt")}
